@@ -165,12 +165,18 @@ theorem agentEv_ok {s : Sys} {LA LB : Log} (h : SInv nat blocked SLA SLB SR lite
       ((s.agentEv isB e).1, if isB then ([], (s.agentEv isB e).2) else ((s.agentEv isB e).2, [])) := by
   cases isB with
   | false =>
-    have hp := step_post h.invA e (by simpa using hadd) haddR (by simpa using hresp) hsrc
+    have hresp' : ∀ now la src m, e = .inbound now la src m → m.cls = 2 → liteA = false →
+        (m.tid, la, src) ∈ LA → GoodS nat blocked SLA (SLor SLA SLB) SR la src :=
+      fun now la src m he hc hl hf => by simpa using hresp now la src m he hc (by simpa using hl) la (by simpa using hf)
+    have hp := step_post h.invA e (by simpa using hadd) haddR hresp' hsrc
     refine ⟨⟨_, _, agentEvA_inv h e hp hR⟩, ?_, by simp⟩
     intro x hx
     exact (hp.2 x hx).conn
   | true =>
-    have hp := step_post h.invB e (by simpa using hadd) haddR (by simpa using hresp) hsrc
+    have hresp' : ∀ now la src m, e = .inbound now la src m → m.cls = 2 → liteB = false →
+        (m.tid, la, src) ∈ LB → GoodS nat blocked SLB (SLor SLA SLB) SR la src :=
+      fun now la src m he hc hl hf => by simpa using hresp now la src m he hc (by simpa using hl) la (by simpa using hf)
+    have hp := step_post h.invB e (by simpa using hadd) haddR hresp' hsrc
     refine ⟨⟨_, _, agentEvB_inv h e hp hR⟩, by simp, ?_⟩
     intro x hx
     exact (hp.2 x hx).conn
@@ -382,11 +388,11 @@ theorem init_inv {s : Sys} (hi : Sys.Init s) : SInv s.nat s.blocked SLA SLB SR s
   refine { nat_eq := rfl, blocked_eq := rfl, invA := ?_, invB := ?_, k0 := ?_, k2 := ?_ }
   · refine { tag_eq := hi.a_tag, lite_eq := rfl, logOK := by simp, logFun := by simp, logSane := by simp,
              logSaneR := by simp, pendOK := ?_, locSane := ?_, remSane := ?_, uidL := ?_, uidR := ?_, uniqR := ?_, pairId := ?_, pairUniq := ?_,
-             pairUid := ?_, succOK := ?_, selOK := ?_, connOK := ?_ } <;>
+             pairUid := ?_, succOK := ?_, respOK := ?_, selOK := ?_, connOK := ?_ } <;>
       simp [view, hi.a_pending, hi.a_locals, hi.a_remotes, hi.a_checklist, hi.a_selected, hi.a_conn, isLive]
   · refine { tag_eq := hi.b_tag, lite_eq := rfl, logOK := by simp, logFun := by simp, logSane := by simp,
              logSaneR := by simp, pendOK := ?_, locSane := ?_, remSane := ?_, uidL := ?_, uidR := ?_, uniqR := ?_, pairId := ?_, pairUniq := ?_,
-             pairUid := ?_, succOK := ?_, selOK := ?_, connOK := ?_ } <;>
+             pairUid := ?_, succOK := ?_, respOK := ?_, selOK := ?_, connOK := ?_ } <;>
       simp [view, hi.b_pending, hi.b_locals, hi.b_remotes, hi.b_checklist, hi.b_selected, hi.b_conn, isLive]
   · simp [hi.inflight]
   · simp [hi.inflight]
